@@ -4,6 +4,9 @@ import r_share
 import r_map
 import r_codec
 import r_kind
+import r_viterbi
+import r_cand
+import r_token
 
 NA = {
     "C17": "first-match order of a backtracking trie matcher over runtime rule lists: no structural "
@@ -12,7 +15,82 @@ NA = {
            "(DESIGN.md section 4)",
 }
 
+def kind_scope(*mods):
+    """KIND restricted to functions whose path contains one of the given fragments."""
+    def run(ctx):
+        r_kind.run(ctx, lambda f: any(m in f.path for m in mods))
+    return run
+
+
 PROPS = {
+    "C01": {
+        "rules": [r_token.access, r_token.dispatch, r_cand.cand, r_cand.unkfall, r_viterbi.traceback,
+                  r_reset.run_tokens],
+        "explanation": "ACCESS: every Token accessor is a projection of the one stored (end, node) "
+                       "pair and the sentence's offset table (ranges, surface, ids, costs, "
+                       "feature); DISPATCH: each lexicon type is looked up in its own component "
+                       "and components are tagged with their type; PAIR: word index and "
+                       "parameters of an inserted node come from one match; UNKFALL: "
+                       "path-sensitive pass showing the single-character fallback cannot be "
+                       "skipped when nothing matched; TRACEBACK: the back-walk follows "
+                       "start_node, never reports BOS; RESET(W0): empty input leaves an empty "
+                       "result.",
+        "level_text": "Static structural rules over MIR expressions and paths: decide that a "
+                      "token's fields are mutually consistent projections and that the lattice "
+                      "always receives a candidate. Termination and panic-freedom for every "
+                      "dictionary/string and the exact coverage clause are value invariants "
+                      "that are NOT decided (DESIGN.md section 3).",
+        "level_note": "Trusted: rustc MIR; spec/api_model.json; decides necessary structural "
+                      "conditions of C01 only.",
+        "technique": "symbolic-expression matching over MIR, path-sensitive flag analysis, "
+                     "typestate dataflow",
+    },
+    "C02": {
+        "rules": [r_viterbi.viterbi, r_viterbi.traceback,
+                  kind_scope("tokenizer", "connector", "lexicon::param", "unknown")],
+        "explanation": "VITERBI: insert_node/insert_eos take (argmin, min) from one search over "
+                       "the complete predecessor list of the very start_node they store, with "
+                       "cost(pred.right_id, own left_id), min_cost = best + word_cost, EOS "
+                       "connects with id 0, no predecessor is skipped, the minimum is replaced "
+                       "exactly when the new cost is not larger; TRACEBACK follows the stored "
+                       "back-pointers; KIND: left/right ids and NODE/WORD positions are never "
+                       "crossed; total_cost exposes the stored prefix minimum (ACCESS in C01).",
+        "level_text": "Static shape check of the recurrence: the code implements one shared "
+                      "Viterbi recurrence over complete predecessor lists with correctly "
+                      "oriented lookups. Optimality as a numeric fact and 32-bit range are not "
+                      "decided.",
+        "level_note": "Trusted: rustc MIR; spec/kinds.json declarations (re-verified anchors).",
+        "technique": "symbolic-expression and loop-shape rules over MIR, kind propagation",
+    },
+    "C03": {
+        "rules": [r_cand.cand, r_cand.unkfall],
+        "explanation": "CAND: at every processed position both lexicons are searched over the "
+                       "same remaining text, every match is inserted and sets has_matched, and "
+                       "gen_unk_words is called exactly once with that flag, the word start and "
+                       "the tokenizer's max_grouping_len; UNKFALL: the fallback candidate cannot "
+                       "be skipped.",
+        "level_text": "Static path rules (must-pass-through, loop shape, path-sensitive flag): "
+                      "decide that all three candidate sources are consulted with a correctly "
+                      "accumulated flag. The arithmetic of invoke/group/length/max-grouping and "
+                      "char.def range semantics is not decided.",
+        "level_note": "Trusted: rustc MIR; crawdad's common_prefix_search.",
+        "technique": "MIR must-pass-through and loop-shape rules, path-sensitive boolean analysis",
+    },
+    "C08": {
+        "rules": [r_map.run_user, r_cand.cand, r_token.dispatch,
+                  kind_scope("dictionary::lexicon", "dictionary::Dictionary")],
+        "explanation": "MAPKEEP: a user lexicon is translated by the stored mapper, then verified "
+                       "against the dictionary's connector (failure returns Err), then installed; "
+                       "None clears; replace not merge; only verified installation points write "
+                       "the field. CAND: user words are offered at every position and set "
+                       "has_matched. DISPATCH: user words are tagged and looked up as User. KIND: "
+                       "verify compares each id with its own side's count.",
+        "level_text": "Static path/dataflow rules for replace/clear semantics, verification "
+                      "before use, and consultation of the user lexicon. Cost equivalence with an "
+                      "extended system lexicon is not decided.",
+        "level_note": "Trusted: rustc MIR; spec/kinds.json.",
+        "technique": "MIR dominance / must-pass-through, who-may-write, kind propagation",
+    },
     "XKIND": {"rules": [r_kind.run_all], "explanation": "debug: KIND only", "level_text": "", "level_note": "", "technique": ""},
     "C05": {
         "rules": [r_codec.run_c05],
